@@ -68,6 +68,9 @@ type world struct {
 	setattrAnon     bool // env switch VERIF_W9_SETATTR_ANON=1
 	noFreeLocked    bool // env switch VERIF_W9_AVOID=freelocked: known finding in nfs41 opFreeStateID
 
+	c14       bool // the run is made on behalf of property C14 (see violate)
+	otherRule bool // (C14 runs) a rule of another property fired; counted once
+
 	stopping bool // lanes stop issuing new requests
 	flushing bool // duplicate actors deliver whatever is queued, without delay
 	exiting  bool // duplicate actors leave
@@ -89,6 +92,25 @@ var c19Rules = map[string]bool{
 }
 
 func (w *world) violate(short, msg string) {
+	if w.c14 {
+		// The same histories also decide C14 for the NFSv4 programs: only
+		// the kernel-level rules (a call that never returns, a mutex left
+		// held, a panic) count, under C14's name.
+		switch short {
+		case "call-never-returned", "inflight-duplicate-never-completes":
+			w.k.Violate("C14/call-never-returned", "[NFSv4 programs] "+msg)
+		case "lock-leaked":
+			w.k.Violate("C14/mutex-held-at-idle", "[NFSv4 programs] "+msg)
+		default:
+			// Counted only; the run goes on to its drain phase, which is
+			// where calls that never return show.
+			if !w.otherRule {
+				w.r.Count("other_property_rule:"+short, 1)
+			}
+			w.otherRule = true
+		}
+		return
+	}
 	if c19Rules[short] {
 		w.k.Violate("C19/"+short, msg)
 	} else {
@@ -412,6 +434,16 @@ func (w *world) events() []simsync.Event {
 		}
 	}
 quietDone:
+	// A client has gone silent while the server still holds its state: let
+	// time pass in steps that the other clients survive by renewing.
+	if len(evs) == 1 && !w.copiesPending() {
+		for _, c := range w.clients {
+			if c.registered && c.silent() {
+				evs = append(evs, adv(quietStep, 3))
+				break
+			}
+		}
+	}
 	if w.timePressure >= 2 && !w.copiesPending() {
 		evs = append(evs, adv(50*time.Second, 1), adv(enforcedLease+time.Second, 1))
 	}
@@ -455,7 +487,7 @@ func (w *world) copiesPending() bool {
 func (w *world) run() {
 	t := w.t
 	k := w.k
-	nc := 1 + t.Choice(3)
+	nc := 1 + t.Choice(4)
 	for i := 0; i < nc; i++ {
 		w.clients = append(w.clients, newClient(w, i))
 	}
@@ -539,7 +571,7 @@ func (w *world) drain() {
 			}
 		}
 		if dup41 && len(lockWaiters) == 0 {
-			w.k.Violate("C19/inflight-duplicate-never-completes", fmt.Sprintf("a retransmission that arrived while the original request was still being processed never returned (NFSv4.1 slot): pending=%v blocked=%v parked=%v held=%v", pending, blocked, seam, k.HeldLocks()))
+			w.violate("inflight-duplicate-never-completes", fmt.Sprintf("a retransmission that arrived while the original request was still being processed never returned (NFSv4.1 slot): pending=%v blocked=%v parked=%v held=%v", pending, blocked, seam, k.HeldLocks()))
 		} else {
 			w.violate("call-never-returned", fmt.Sprintf("after all clients stopped and the transport drained, these COMPOUND calls have not returned: pending=%v lock-waiters=%v blocked=%v parked=%v held=%v", pending, lockWaiters, blocked, seam, k.HeldLocks()))
 		}
@@ -625,6 +657,18 @@ func sortedKeys[V any](m map[string]V) []string {
 	}
 	sort.Strings(out)
 	return out
+}
+
+// WorldC14 runs the C18 histories on behalf of C14 (every call returns, no
+// mutex is left held, nothing panics) for the NFSv4.0 and NFSv4.1 programs.
+func WorldC14() simrun.World {
+	return func(r *simrun.Run) {
+		w := newWorld(r, "C18")
+		w.c14 = true
+		w.run()
+		r.SimTime = w.now().Sub(startTime)
+		w.finish()
+	}
 }
 
 // World is the entry point registered for properties C18 and C19.
